@@ -13,6 +13,11 @@ func genC04(t *rapid.T) CrashCase {
 	c.Keys = GenKeys(t, 2, 3, false)
 	c.Ops = GenTxOps(t, TxGenOpts{MinOps: 3, MaxOps: 15, Weights: map[string]int{
 		"begin": 4, "set": 12, "del": 3, "commit": 5, "rollback": 2, "gc": 2}})
+	// every workload contains a multi-key transaction that ends (commit, sometimes after interfering
+	// commits): the in-flight Commit is where "all keys or none" is decided
+	frag := GenConflictScenario(t)
+	at := rapid.IntRange(0, len(c.Ops)).Draw(t, "fragAt")
+	c.Ops = append(c.Ops[:at:at], append(frag, c.Ops[at:]...)...)
 	for i := range c.Ops {
 		if c.Ops[i].Len > 5000 {
 			c.Ops[i].Len %= 5000
@@ -35,6 +40,11 @@ func genC05(t *rapid.T) Case {
 			maxOps = 16 // the first life of the database writes more, so that persisted version numbers are high
 		}
 		c.Ops = append(c.Ops, GenTxOps(t, TxGenOpts{MinOps: 1, MaxOps: maxOps, Weights: w})...)
+		if rapid.Bool().Draw(t, "scenario") {
+			// a transaction whose writes interleave with other commits to the same keys, committed
+			// (or aborted) right before the reopen: what is persisted must order like what was acknowledged
+			c.Ops = append(c.Ops, GenConflictScenario(t)...)
+		}
 		if s < nseg-1 {
 			k := "reopen"
 			if cross && rapid.IntRange(0, 2).Draw(t, "np") > 0 {
